@@ -129,3 +129,23 @@ Proof.
 Qed.
 
 End PyDefLemmas.
+
+(* ---------- the markdown renderer's plain-Python width = the compiled helper's running maximum ---------- *)
+Lemma fold_max_acc : forall (l : list Z) (m a : Z),
+  fold_right Z.max (Z.max m a) l = Z.max a (fold_right Z.max m l).
+Proof. induction l as [|x r IH]; intros m a; cbn [fold_right]; [lia|]. rewrite IH. lia. Qed.
+
+Lemma width_loop_fold : forall (vals : list (option (list N))) (m : Z),
+  width_loop vals m = fold_right Z.max m (nonnull_lengths vals).
+Proof.
+  induction vals as [|[s|] r IH]; intros m; cbn [width_loop nonnull_lengths fold_right].
+  - reflexivity.
+  - rewrite IH.
+    replace (if (Z.of_nat (length s) >? m)%Z then Z.of_nat (length s) else m) with (Z.max m (Z.of_nat (length s))).
+    + apply fold_max_acc.
+    + destruct (Z.of_nat (length s) >? m)%Z eqn:H; lia.
+  - apply IH.
+Qed.
+
+Lemma md_width_agrees : forall (vals : list (option (list N))), md_data_width vals = data_width vals.
+Proof. intros vals. unfold md_data_width, data_width. symmetry. apply width_loop_fold. Qed.
